@@ -36,6 +36,8 @@ pub fn exec(c: &OCase, repair: bool) -> OResult {
     rec::reset_cmps();
     if c.fuel >= -1 {
         rec::install_clock(c.fuel, false);
+    } else {
+        rec::install_hostile_clock(); // no deadline is passed: the clock must be unobservable
     }
     similar::verif_hooks::set_swap_repair(repair);
     let _ = similar::verif_hooks::take_swap_count();
@@ -345,6 +347,9 @@ pub fn drive_ops(a: &Args, out: &mut Out) {
     }
     for _ in 0..(if thorough { 600 } else { 60 }) {
         pairs.push(gen::runny_ints(&mut rng));
+    }
+    for _ in 0..(if thorough { 1500 } else { 150 }) {
+        pairs.push(gen::anchor_heavy(&mut rng));
     }
     // exhaustive small scope, one representative per relabelling class, whole slices, no deadline
     if a.get("exh", "1") == "1" {
